@@ -653,7 +653,14 @@ class Forward:
             ps = [p for p in self.facts.params(b) if p.get("pat")]
             for p, a in zip(ps, argvals):
                 self.ev.bind(p["pat"], a, env)
-            return self.ev.ev(self.facts.root(b), env)
+            root = self.facts.root(b)
+            if any(x.get("k") == "Return" for x in walk(root)):
+                import copy
+                from .inline import eliminate_returns
+                r2 = copy.deepcopy(root)
+                if eliminate_returns(r2):
+                    root = r2
+            return self.ev.ev(root, env)
         finally:
             self.stack.pop()
 
